@@ -16,7 +16,7 @@
 (* value, its canonical encoding and the distinct layout variants: the     *)
 (* stimuli, with their expected outcome, replayed on the real code.        *)
 (***************************************************************************)
-EXTENDS AvroValues, SerdeModel, Json, IOUtils, SequencesExt
+EXTENDS AvroValues, SerdeModel, AvroSkip, Json, IOUtils, SequencesExt
 
 Scope   == ndJsonDeserialize(IOEnv.VERIF_SCOPE)
 NShards == atoi(IOEnv.VERIF_NSHARDS)
@@ -46,6 +46,9 @@ CaseOk ==
     /\ \A j \in 1..Len(c.lays) : IsEncodingOf(G, c.lays[j], c.v)
     /\ \A j \in 1..Len(c.mal) : DecAll(G, c.mal[j]).st = "err"
     /\ \A j \in 0..(Len(c.enc) - 1) : DecAll(G, SubSeq(c.enc, 1, j)).st = "err"      \* premature end of input
+    \* skipping (implementation-shaped, incl. jumping over sized blocks) ends where decoding ends (C12)
+    /\ SkipI(G, c.enc) = SOk(Len(c.enc) + 1)
+    /\ \A j \in 1..Len(c.lays) : SkipI(G, c.lays[j]) = SOk(Len(c.lays[j]) + 1)
     \* every canonical presentation must serialize, and denotes exactly v (C01 <-> SerdeModel)
     /\ \A st \in {"named", "rust", "bare"} :
           LET d == Den(G, 1, c.pres[st], FALSE) IN d.m = "ok" /\ d.vs = {c.v} /\ ~d.any
